@@ -554,4 +554,545 @@ theorem decCompFilters_of_read : ∀ (l : List Node) (cfs : List CompFilter), Al
       exact decCompFilters_of_read rest cfs hrest h
 end
 
+-- the data request: comp (any nesting depth) -------------------------------------------------------------------------------------------------
+
+theorem cs_ap : CalSym "allprop" := calSym_of _ (by decide) (by decide) (by decide)
+theorem cs_pr : CalSym "prop" := calSym_of _ (by decide) (by decide) (by decide)
+theorem cs_ac : CalSym "allcomp" := calSym_of _ (by decide) (by decide) (by decide)
+theorem cs_co : CalSym "comp" := calSym_of _ (by decide) (by decide) (by decide)
+theorem cs_ex : CalSym "expand" := calSym_of _ (by decide) (by decide) (by decide)
+
+theorem any_localIs_contains (cs : List Node) (hall : AllCal cs) (loc : String) :
+    cs.any (·.localIs loc) = (cs.map tag).contains loc := by
+  induction cs with
+  | nil => rfl
+  | cons c cs ih =>
+    obtain ⟨l, a, k, rfl⟩ := hall c (by simp)
+    have := ih (fun x hx => hall x (List.mem_cons_of_mem _ hx))
+    simp only [List.any_cons, List.map_cons, List.contains_cons, localIs_el, tag_el, this]
+    by_cases hl : l = loc
+    · simp [hl]
+    · have h1 : (l == loc) = false := by simpa using hl
+      have h2 : (loc == l) = false := by simpa using fun h => hl h.symm
+      simp [h1, h2]
+
+theorem decPropName_of_read (n : Node) (name : String) (h : readDataProp n = some name) : decPropName n = .ok name := by
+  unfold readDataProp at h
+  split at h
+  · rename_i q attrs
+    by_cases hc : (named (Node.elem q attrs []) "prop" && attrsOK ["name", "novalue"] attrs) = true
+    · simp only [hc, if_true] at h
+      simp only [Bool.and_eq_true] at hc
+      obtain ⟨a, c, he⟩ := named_cal _ _ hc.1 cs_pr.1 cs_pr.2.1 cs_pr.2.2
+      have hq : q.space = nsCal := by simp [el] at he; rw [he.1]
+      unfold decPropName
+      have hna : nameAttr attrs = name := by unfold nameAttr; unfold reqName at h; rw [h]; rfl
+      simp only [checkNs, hq, if_true, bind, Except.bind, hna, pure, Except.pure]
+    · simp [hc] at h
+  · cases h
+
+theorem readComps_nil (cs : List Node) (h : ∀ n ∈ cs, named n "comp" = false) : readComps cs = some [] := by
+  induction cs with
+  | nil => simp [readComps]
+  | cons c cs ih =>
+    simp only [readComps, h c (by simp), Bool.false_eq_true, if_false]
+    exact ih (fun x hx => h x (List.mem_cons_of_mem _ hx))
+
+theorem decComps_nil (cs : List Node) (h : ∀ n ∈ cs, n.localIs "comp" = false) : decComps cs = .ok [] := by
+  induction cs with
+  | nil => simp [decComps]
+  | cons c cs ih =>
+    simp only [decComps, h c (by simp), Bool.false_eq_true, if_false]
+    exact ih (fun x hx => h x (List.mem_cons_of_mem _ hx))
+
+theorem not_named_of_tags (cs : List Node) (loc : String) (h : loc ∉ cs.map tag) : ∀ n ∈ cs, named n loc = false := by
+  intro n hn
+  cases hnl : named n loc
+  · rfl
+  · exfalso; apply h
+    have : tag n = loc := by simpa [named] using hnl
+    exact List.mem_map.mpr ⟨n, hn, this⟩
+
+mutual
+theorem decComp_of_read : ∀ (n : Node) (c : CompReq), readComp n = some c → decComp n = .ok c
+  | .text s, c, h => by simp [readComp] at h
+  | .comment s, c, h => by simp [readComp] at h
+  | .elem q attrs cs, c, h => by
+    simp only [readComp] at h
+    split at h
+    · cases h
+    · rename_i hc
+      simp only [Bool.not_eq_true, Bool.not_eq_false', Bool.and_eq_true, beq_iff_eq] at hc
+      have hq : q.space = nsCal := hc.1.1
+      cases hname : reqName attrs with
+      | none => simp [hname] at h
+      | some name =>
+        have hna : nameAttr attrs = name := by unfold nameAttr; unfold reqName at hname; rw [hname]; rfl
+        simp only [hname, bind, Option.bind] at h
+        generalize hpat : ([if (cs.map tag).contains "allprop" = true then Pat.one "allprop" else Pat.star "prop",
+          if (cs.map tag).contains "allcomp" = true then Pat.one "allcomp" else Pat.star "comp"] : List Pat) = pat at h
+        by_cases hseq : seqOK pat (cs.map tag) = true
+        · simp only [hseq, Bool.not_true, Bool.false_eq_true, if_false] at h
+          generalize hbare : ((cs.filter (named · "allprop")).all isBare && (cs.filter (named · "allcomp")).all isBare) = bare at h
+          cases bare with
+          | false => simp at h
+          | true =>
+            simp only [Bool.not_true, Bool.false_eq_true, if_false] at h
+            cases hps : (cs.filter (named · "prop")).mapM readDataProp with
+            | none => simp [hps] at h
+            | some props =>
+              cases hcs : readComps cs with
+              | none => simp [hps, hcs] at h
+              | some comps =>
+                simp only [hps, hcs, pure, Option.some.injEq] at h
+                subst h
+                have hmem := seqOK_mem _ _ hseq
+                -- the symbols of the (flag-dependent) content model
+                have hsyms : ∀ t ∈ pat.map sym, t ∈ ["allprop", "prop", "allcomp", "comp"] := by
+                  intro t ht
+                  rw [← hpat] at ht
+                  cases hap : (cs.map tag).contains "allprop" <;> cases hac : (cs.map tag).contains "allcomp" <;>
+                    simp only [hap, hac, Bool.false_eq_true, if_false, if_true, List.map_cons, List.map_nil, sym, List.mem_cons,
+                      List.not_mem_nil, or_false] at ht <;>
+                    rcases ht with rfl | rfl <;> simp
+                have hnoprop : (cs.map tag).contains "allprop" = true → "prop" ∉ pat.map sym := by
+                  intro hap hm
+                  rw [← hpat] at hm
+                  cases hac : (cs.map tag).contains "allcomp" <;>
+                    simp only [hap, hac, Bool.false_eq_true, if_false, if_true, List.map_cons, List.map_nil, sym, List.mem_cons,
+                      List.not_mem_nil, or_false] at hm <;>
+                    rcases hm with h1 | h1 <;> exact absurd h1 (by decide)
+                have hnocomp : (cs.map tag).contains "allcomp" = true → "comp" ∉ pat.map sym := by
+                  intro hac hm
+                  rw [← hpat] at hm
+                  cases hap : (cs.map tag).contains "allprop" <;>
+                    simp only [hap, hac, Bool.false_eq_true, if_false, if_true, List.map_cons, List.map_nil, sym, List.mem_cons,
+                      List.not_mem_nil, or_false] at hm <;>
+                    rcases hm with h1 | h1 <;> exact absurd h1 (by decide)
+                have hall : AllCal cs := allCal_of_tags cs ["allprop", "prop", "allcomp", "comp"]
+                  (by intro t ht; simp at ht; rcases ht with rfl | rfl | rfl | rfl; exact cs_ap; exact cs_pr; exact cs_ac; exact cs_co)
+                  (fun t ht => hsyms t (hmem t ht))
+                have e1 : (pick "prop" cs).mapM decPropName = .ok props := by
+                  rw [← filter_named cs hall]
+                  exact mapM_agree readDataProp decPropName decPropName_of_read _ props hps
+                have e2 := decComps_of_read cs comps hall hcs
+                have eap := any_localIs_contains cs hall "allprop"
+                have eac := any_localIs_contains cs hall "allcomp"
+                have hp0 : (cs.map tag).contains "allprop" = true → props = [] := by
+                  intro hap
+                  have hno : "prop" ∉ cs.map tag := fun hm => hnoprop hap (hmem _ hm)
+                  have hf : cs.filter (named · "prop") = [] :=
+                    List.filter_eq_nil_iff.mpr (fun x hx => by simp [not_named_of_tags cs "prop" hno x hx])
+                  rw [hf] at hps
+                  simp at hps; exact hps
+                have hc0 : (cs.map tag).contains "allcomp" = true → comps = [] := by
+                  intro hac
+                  have hno : "comp" ∉ cs.map tag := fun hm => hnocomp hac (hmem _ hm)
+                  have := readComps_nil cs (not_named_of_tags cs "comp" hno)
+                  rw [this] at hcs
+                  simp at hcs; exact hcs
+                simp only [decComp, checkNs, hq, if_true, bind, Except.bind, hna, e1, e2, eap, eac]
+                cases hap : (cs.map tag).contains "allprop" <;> cases hac : (cs.map tag).contains "allcomp"
+                · simp only [Bool.false_eq_true, false_and, if_false, pure, Except.pure]
+                · have := hc0 hac
+                  subst this
+                  simp only [Bool.false_eq_true, false_and, if_false, List.isEmpty_nil, Bool.not_true, and_false, pure, Except.pure]
+                · have := hp0 hap
+                  subst this
+                  simp only [Bool.false_eq_true, false_and, if_false, List.isEmpty_nil, Bool.not_true, and_false, pure, Except.pure]
+                · have := hp0 hap
+                  subst this
+                  have := hc0 hac
+                  subst this
+                  simp only [Bool.false_eq_true, if_false, List.isEmpty_nil, Bool.not_true, and_false, pure, Except.pure]
+        · simp [hseq] at h
+theorem decComps_of_read : ∀ (l : List Node) (cs : List CompReq), AllCal l → readComps l = some cs → decComps l = .ok cs
+  | [], cs, _, h => by
+    simp only [readComps, Option.some.injEq] at h
+    subst h; simp [decComps]
+  | n :: rest, cs, hall, h => by
+    have hrest : AllCal rest := fun x hx => hall x (List.mem_cons_of_mem _ hx)
+    obtain ⟨l0, a0, c0, hn⟩ := hall n (by simp)
+    have hnl : named n "comp" = n.localIs "comp" := by rw [hn, named_el, localIs_el]
+    simp only [readComps] at h
+    simp only [decComps]
+    rw [← hnl]
+    by_cases hcf : named n "comp" = true
+    · simp only [hcf, if_true] at h ⊢
+      cases h1 : readComp n with
+      | none => simp [h1] at h
+      | some c =>
+        cases h2 : readComps rest with
+        | none => simp [h1, h2] at h
+        | some cs' =>
+          simp only [h1, h2, bind, Option.bind, pure, Option.some.injEq] at h
+          subst h
+          simp only [decComp_of_read n c h1, decComps_of_read rest cs' hrest h2, bind, Except.bind, pure, Except.pure]
+    · simp only [hcf, Bool.false_eq_true, if_false] at h ⊢
+      exact decComps_of_read rest cs hrest h
+end
+
+-- calendar-data ---------------------------------------------------------------------------------------------------------------------------
+
+theorem seq_opt2 (a b : String) (hab : a ≠ b) (ts : List String) (h : seqOK [.opt a, .opt b] ts = true) :
+    ts = [] ∨ ts = [a] ∨ ts = [b] ∨ ts = [a, b] := by
+  have hba : (b == a) = false := by simpa using fun h => hab h.symm
+  match ts with
+  | [] => exact Or.inl rfl
+  | [t] =>
+    simp only [seqOK] at h
+    by_cases h1 : (t == a) = true
+    · have : t = a := by simpa using h1
+      subst this; exact Or.inr (Or.inl rfl)
+    · simp only [h1, Bool.false_eq_true, if_false] at h
+      by_cases h2 : (t == b) = true
+      · have : t = b := by simpa using h2
+        subst this; exact Or.inr (Or.inr (Or.inl rfl))
+      · simp [h2] at h
+  | [t, u] =>
+    simp only [seqOK] at h
+    by_cases h1 : (t == a) = true
+    · have : t = a := by simpa using h1
+      subst this
+      simp only [h1, if_true] at h
+      by_cases h2 : (u == b) = true
+      · have : u = b := by simpa using h2
+        subst this; exact Or.inr (Or.inr (Or.inr rfl))
+      · simp [h2] at h
+    · simp only [h1, Bool.false_eq_true, if_false] at h
+      by_cases h2 : (t == b) = true
+      · simp [h2] at h
+      · simp [h2] at h
+  | t :: u :: v :: rest =>
+    simp only [seqOK] at h
+    by_cases h1 : (t == a) = true
+    · simp only [h1, if_true] at h
+      by_cases h2 : (u == b) = true
+      · simp [h2] at h
+      · simp [h2] at h
+    · simp only [h1, Bool.false_eq_true, if_false] at h
+      by_cases h2 : (t == b) = true
+      · simp [h2] at h
+      · simp [h2] at h
+
+theorem shape1 (cs : List Node) (a : String) (h : cs.map tag = [a]) (hs : CalSym a) : ∃ ats k, cs = [el a ats k] := by
+  match cs, h with
+  | [c], h =>
+    simp only [List.map_cons, List.map_nil, List.cons.injEq, and_true] at h
+    obtain ⟨at', k, rfl⟩ := tag_eq_cal c a h hs.1 hs.2.1 hs.2.2
+    exact ⟨at', k, rfl⟩
+
+theorem shape2 (cs : List Node) (a b : String) (h : cs.map tag = [a, b]) (ha : CalSym a) (hb : CalSym b) :
+    ∃ ats k bt l, cs = [el a ats k, el b bt l] := by
+  match cs, h with
+  | [c, d], h =>
+    simp only [List.map_cons, List.map_nil, List.cons.injEq, and_true] at h
+    obtain ⟨at', k, rfl⟩ := tag_eq_cal c a h.1 ha.1 ha.2.1 ha.2.2
+    obtain ⟨bt, l, rfl⟩ := tag_eq_cal d b h.2 hb.1 hb.2.1 hb.2.2
+    exact ⟨at', k, bt, l, rfl⟩
+
+theorem decRange_of_readExpand (n : Node) (r : Int × Int) (h : readExpand n = some r) : decRange n = .ok r := by
+  unfold readExpand at h
+  split at h
+  · rename_i q attrs
+    split at h
+    · cases h
+    · rename_i hc
+      simp only [Bool.not_eq_true, Bool.not_eq_false', Bool.and_eq_true] at hc
+      obtain ⟨a, c, he⟩ := named_cal _ _ hc.1 cs_ex.1 cs_ex.2.1 cs_ex.2.2
+      have hq : q.space = nsCal := by simp [el] at he; rw [he.1]
+      cases hs : readTime attrs "start" with
+      | none => simp [hs] at h
+      | some s =>
+        cases hee : readTime attrs "end" with
+        | none => simp [hs, hee] at h
+        | some e =>
+          simp only [hs, hee, bind, Option.bind] at h
+          cases s with
+          | none => simp at h
+          | some sv =>
+            cases e with
+            | none => simp at h
+            | some ev =>
+              simp only [pure, Option.some.injEq] at h
+              subst h
+              have h1 := decTime_of_read attrs "start" (some sv) hs
+              have h2 := decTime_of_read attrs "end" (some ev) hee
+              unfold decRange
+              simp only [checkNs, hq, if_true, bind, Except.bind, h1, h2, Option.getD_some, pure, Except.pure]
+  · cases h
+
+/-- the calendar-data element found inside DAV:prop: what the decoder makes of it is what the strict reader reads -/
+theorem decDataReq_of_read (pc : List Node) (cd : Node) (d : DataReq)
+    (hfind : pc.find? (·.isElem nsCal "calendar-data") = some cd) (h : readCalendarData cd = some d) :
+    decDataReq pc = .ok d := by
+  cases cd with
+  | text s => simp [readCalendarData] at h
+  | comment s => simp [readCalendarData] at h
+  | elem q attrs cs =>
+    unfold readCalendarData at h
+    simp only at h
+    split at h
+    · cases h
+    · split at h
+      · cases h
+      · rename_i hseq
+        simp only [Bool.not_eq_true, Bool.not_eq_false'] at hseq
+        unfold decDataReq
+        rw [hfind]
+        simp only
+        rcases seq_opt2 "comp" "expand" (by decide) _ hseq with h0 | h1 | h2 | h3
+        · have : cs = [] := by simpa using h0
+          subst this
+          simp [bind, Option.bind, pure] at h
+          subst h
+          simp [single, pick, decOptRange, bind, Except.bind, pure, Except.pure]
+        · obtain ⟨a, k, rfl⟩ := shape1 cs "comp" h1 cs_co
+          simp only [List.find?_cons, named_el, beq_self_eq_true, if_true] at h
+          have hne : ("comp" == "expand") = false := by decide
+          simp only [hne, Bool.false_eq_true, if_false, List.find?_nil] at h
+          cases hc : readComp (el "comp" a k) with
+          | none => simp [hc, bind, Option.bind] at h
+          | some c =>
+            simp [hc, bind, Option.bind, pure] at h
+            subst h
+            have := decComp_of_read _ c hc
+            simp [single, pick, decOptRange, el, Node.localIs, bind, Except.bind, pure, Except.pure] at this ⊢
+            try simp [el] at this
+            simp [this]
+        · obtain ⟨a, k, rfl⟩ := shape1 cs "expand" h2 cs_ex
+          have hne : ("expand" == "comp") = false := by decide
+          simp only [List.find?_cons, named_el, hne, Bool.false_eq_true, if_false, List.find?_nil, beq_self_eq_true, if_true] at h
+          cases hx : readExpand (el "expand" a k) with
+          | none => simp [hx, bind, Option.bind] at h
+          | some r =>
+            simp [hx, bind, Option.bind, pure] at h
+            subst h
+            have := decRange_of_readExpand _ r hx
+            simp [single, pick, decOptRange, el, Node.localIs, bind, Except.bind, pure, Except.pure] at this ⊢
+            try simp [el] at this
+            simp [this]
+        · obtain ⟨a, k, b, l, rfl⟩ := shape2 cs "comp" "expand" h3 cs_co cs_ex
+          have hne : ("comp" == "expand") = false := by decide
+          have hne2 : ("expand" == "comp") = false := by decide
+          simp only [List.find?_cons, named_el, beq_self_eq_true, if_true, hne, hne2, Bool.false_eq_true, if_false] at h
+          cases hc : readComp (el "comp" a k) with
+          | none => simp [hc, bind, Option.bind] at h
+          | some c =>
+            cases hx : readExpand (el "expand" b l) with
+            | none => simp [hc, hx, bind, Option.bind] at h
+            | some r =>
+              simp [hc, hx, bind, Option.bind, pure] at h
+              subst h
+              have t1 := decComp_of_read _ c hc
+              have t2 := decRange_of_readExpand _ r hx
+              simp [single, pick, decOptRange, el, Node.localIs, bind, Except.bind, pure, Except.pure] at t1 t2 ⊢
+              try simp [el] at t1 t2
+              simp [t1, t2]
+
+-- the query -------------------------------------------------------------------------------------------------------------------------------
+
+theorem named_eq_isElem (n : Node) (loc : String) (hs : CalSym loc) : named n loc = n.isElem nsCal loc := by
+  cases hn : named n loc
+  · cases hi : n.isElem nsCal loc
+    · rfl
+    · exfalso
+      cases n with
+      | elem q a c =>
+        simp only [Node.isElem, Bool.and_eq_true, beq_iff_eq] at hi
+        have : named (Node.elem q a c) loc = true := by simp [named, tag, hi.1, hi.2]
+        rw [hn] at this; cases this
+      | text s => simp [Node.isElem] at hi
+      | comment s => simp [Node.isElem] at hi
+  · obtain ⟨a, c, rfl⟩ := named_cal n loc hn hs.1 hs.2.1 hs.2.2
+    simp [el, Node.isElem]
+
+theorem find_head_filter (p : Node → Bool) (l : List Node) : l.find? p = (l.filter p).head? := by
+  induction l with
+  | nil => rfl
+  | cons a as ih =>
+    rw [List.find?_cons, List.filter_cons]
+    cases ha : p a
+    · simp only [Bool.false_eq_true, if_false]; exact ih
+    · simp
+
+theorem cs_cd : CalSym "calendar-data" := calSym_of _ (by decide) (by decide) (by decide)
+theorem cs_fi : CalSym "filter" := calSym_of _ (by decide) (by decide) (by decide)
+theorem cs_tz : CalSym "timezone" := calSym_of _ (by decide) (by decide) (by decide)
+
+/-- what the decoder's DAV:prop lookup finds among the root's children -/
+def DataPart (children : List Node) (d : DataReq) : Prop :=
+  (children.filter (·.isElem nsDav "prop") = [] ∧ d = zeroReq) ∨
+  (∃ q a pc, children.filter (·.isElem nsDav "prop") = [.elem q a pc] ∧ decDataReq pc = .ok d)
+
+theorem propReq_of_read (a : Node) (d : DataReq) (h : readPropReq a = some d) :
+    DataPart [a] d ∧ a.localIs "filter" = false := by
+  unfold readPropReq at h
+  split at h
+  · rename_i q cs
+    by_cases hq : q.space = nsDav
+    · simp only [hq, ne_eq, not_true_eq_false, if_false] at h
+      by_cases h1 : q.loc = "allprop" ∨ q.loc = "propname"
+      · simp only [h1, if_true] at h
+        by_cases he : cs.isEmpty = true
+        · simp only [he, if_true, Option.some.injEq] at h
+          subst h
+          refine ⟨Or.inl ⟨?_, rfl⟩, ?_⟩
+          · rcases h1 with h1 | h1 <;> simp [List.filter_cons, Node.isElem, hq, h1]
+          · rcases h1 with h1 | h1 <;> simp [Node.localIs, h1]
+        · simp [he] at h
+      · simp only [h1, if_false] at h
+        by_cases h2 : q.loc = "prop"
+        · simp only [h2, if_true] at h
+          split at h
+          · cases h
+          · have hyes : (Node.elem q [] cs).isElem nsDav "prop" = true := by simp [Node.isElem, hq, h2]
+            refine ⟨Or.inr ⟨q, [], cs, by simp [List.filter_cons, hyes], ?_⟩, by simp [Node.localIs, h2]⟩
+            have hf : (fun n : Node => n.isElem nsCal "calendar-data") = (named · "calendar-data") := by
+              funext n; exact (named_eq_isElem n _ cs_cd).symm
+            split at h
+            · rename_i hnil
+              simp only [Option.some.injEq] at h
+              subst h
+              unfold decDataReq
+              rw [hf, find_head_filter, hnil]
+              rfl
+            · rename_i cd hone
+              have hfind : cs.find? (·.isElem nsCal "calendar-data") = some cd := by
+                rw [hf, find_head_filter, hone]; rfl
+              exact decDataReq_of_read cs cd d hfind h
+            · cases h
+        · simp [h2] at h
+    · simp [hq] at h
+  · cases h
+
+theorem readFilter_facts (f : Node) (cf : CompFilter) (h : readFilter f = some cf) :
+    ∃ fq c, f = .elem fq [] [c] ∧ fq.space = nsCal ∧ fq.loc = "filter" ∧ readCompFilter c = some cf := by
+  unfold readFilter at h
+  split at h
+  · rename_i fq c
+    by_cases hn : named (Node.elem fq [] [c]) "filter" = true
+    · simp only [hn, if_true] at h
+      obtain ⟨a, k, he⟩ := named_cal _ _ hn cs_fi.1 cs_fi.2.1 cs_fi.2.2
+      simp only [el, Node.elem.injEq] at he
+      exact ⟨fq, c, rfl, by rw [he.1], by rw [he.1], h⟩
+    · simp [hn] at h
+  · cases h
+
+theorem readCompFilter_local (c : Node) (cf : CompFilter) (h : readCompFilter c = some cf) : c.localIs "comp-filter" = true := by
+  cases c with
+  | text s => simp [readCompFilter] at h
+  | comment s => simp [readCompFilter] at h
+  | elem q a k =>
+    simp only [readCompFilter] at h
+    split at h
+    · cases h
+    · rename_i hc
+      simp only [Bool.not_eq_true, Bool.not_eq_false', Bool.and_eq_true, beq_iff_eq] at hc
+      simp [Node.localIs, hc.1.2]
+
+theorem decodeQuery_parts (name : QName) (attrs : List (QName × String)) (children : List Node)
+    (hroot : (name.space == nsCal && name.loc == "calendar-query") = true)
+    (d : DataReq) (hd : DataPart children d)
+    (f : Node) (hf : pick "filter" children = [f]) (cf : CompFilter) (hrf : readFilter f = some cf) :
+    decodeQuery (.elem name attrs children) = .ok ⟨d, cf⟩ := by
+  obtain ⟨fq, c, rfl, hsp, _, hc⟩ := readFilter_facts f cf hrf
+  have hcl := readCompFilter_local c cf hc
+  have hdc := decCompFilter_of_read c cf hc
+  have hf' : children.filter (·.localIs "filter") = [Node.elem fq [] [c]] := hf
+  unfold decodeQuery
+  simp only [hroot, Bool.not_true, Bool.false_eq_true, if_false]
+  rcases hd with ⟨hd1, rfl⟩ | ⟨q, a, pc, hd1, hd2⟩
+  · simp only [single, pick, hf', List.filter_cons, hcl, if_true, List.filter_nil, bind, Except.bind, checkNs, hsp, hdc, decPropReq, hd1,
+      pure, Except.pure]
+  · simp only [single, pick, hf', List.filter_cons, hcl, if_true, List.filter_nil, bind, Except.bind, checkNs, hsp, hdc, decPropReq, hd1,
+      hd2, pure, Except.pure]
+
+theorem filter_facts (f : Node) (cf : CompFilter) (h : readFilter f = some cf) :
+    f.localIs "filter" = true ∧ f.isElem nsDav "prop" = false := by
+  obtain ⟨fq, c, rfl, hsp, hloc, _⟩ := readFilter_facts f cf h
+  simp [Node.localIs, Node.isElem, hsp, hloc, nsCal, nsDav]
+
+theorem tz_facts (t : Node) (h : named t "timezone" = true) : t.localIs "filter" = false ∧ t.isElem nsDav "prop" = false := by
+  obtain ⟨a, k, rfl⟩ := named_cal t _ h cs_tz.1 cs_tz.2.1 cs_tz.2.2
+  simp [el, Node.localIs, Node.isElem, nsCal, nsDav]
+
+/-- wire → backend for EVERY document the strict RFC 4791 reader accepts: the backend receives the query it denotes -/
+theorem decodeQuery_of_read (n : Node) (q : Query) (h : readQuery n = some q) : decodeQuery n = .ok q := by
+  unfold readQuery at h
+  split at h
+  · rename_i name cs
+    split at h
+    · cases h
+    · rename_i hc
+      simp only [Bool.not_eq_true, Bool.not_eq_false'] at hc
+      match cs, h with
+      | [f], h =>
+        cases hf : readFilter f with
+        | none => simp [hf, bind, Option.bind] at h
+        | some cf =>
+          simp [hf, bind, Option.bind, pure] at h
+          subst h
+          have ff := filter_facts f cf hf
+          exact decodeQuery_parts name [] [f] hc zeroReq (Or.inl ⟨by simp [List.filter_cons, ff.2], rfl⟩) f
+            (by simp [pick, List.filter_cons, ff.1]) cf hf
+      | [a, b], h =>
+        simp only at h
+        by_cases hp : isPropReq a = true
+        · simp only [hp, if_true] at h
+          cases hd : readPropReq a with
+          | none => simp [hd, bind, Option.bind] at h
+          | some d =>
+            cases hf : readFilter b with
+            | none => simp [hd, hf, bind, Option.bind] at h
+            | some cf =>
+              simp [hd, hf, bind, Option.bind, pure] at h
+              subst h
+              have ff := filter_facts b cf hf
+              obtain ⟨hdp, hal⟩ := propReq_of_read a d hd
+              have hdata : DataPart [a, b] d := by
+                have e : [a, b].filter (·.isElem nsDav "prop") = [a].filter (·.isElem nsDav "prop") := by
+                  simp [List.filter_cons, ff.2]
+                unfold DataPart at hdp ⊢
+                rw [e]; exact hdp
+              exact decodeQuery_parts name [] [a, b] hc d hdata b (by simp [pick, List.filter_cons, ff.1, hal]) cf hf
+        · simp only [hp, Bool.false_eq_true, if_false] at h
+          by_cases htz : named b "timezone" = true
+          · simp only [htz, if_true] at h
+            cases hf : readFilter a with
+            | none => simp [hf, bind, Option.bind] at h
+            | some cf =>
+              simp [hf, bind, Option.bind, pure] at h
+              subst h
+              have ff := filter_facts a cf hf
+              have ft := tz_facts b htz
+              exact decodeQuery_parts name [] [a, b] hc zeroReq (Or.inl ⟨by simp [List.filter_cons, ff.2, ft.2], rfl⟩) a
+                (by simp [pick, List.filter_cons, ff.1, ft.1]) cf hf
+          · simp [htz] at h
+      | [a, b, c], h =>
+        simp only at h
+        by_cases htz : named c "timezone" = true
+        · simp only [htz, if_true] at h
+          cases hd : readPropReq a with
+          | none => simp [hd, bind, Option.bind] at h
+          | some d =>
+            cases hf : readFilter b with
+            | none => simp [hd, hf, bind, Option.bind] at h
+            | some cf =>
+              simp [hd, hf, bind, Option.bind, pure] at h
+              subst h
+              have ff := filter_facts b cf hf
+              have ft := tz_facts c htz
+              obtain ⟨hdp, hal⟩ := propReq_of_read a d hd
+              have hdata : DataPart [a, b, c] d := by
+                have e : [a, b, c].filter (·.isElem nsDav "prop") = [a].filter (·.isElem nsDav "prop") := by
+                  simp [List.filter_cons, ff.2, ft.2]
+                unfold DataPart at hdp ⊢
+                rw [e]; exact hdp
+              exact decodeQuery_parts name [] [a, b, c] hc d hdata b (by simp [pick, List.filter_cons, ff.1, hal, ft.1]) cf hf
+        · simp [htz] at h
+      | [], h => simp at h
+      | _ :: _ :: _ :: _ :: _, h => simp at h
+  · cases h
+
 end GoWebdav.Lemmas.CaldavAgree
